@@ -89,6 +89,26 @@ static void misc(Ctx& c) {
             if ((e.getNode() == 0) != (v == 0) && !rule) throw Violation("C19:forest-int:zero-handle", "constant " + tos(v) + " has root " + tos(e.getNode()));
             c.count("forest_int_values");
         }
+        // integers outside the terminal range are rejected on every route into the forest (constant, minterm value, default value),
+        // including those whose low 32 bits look like a legal terminal
+        {
+            std::vector<long> big = {IMAX + 1, IMIN - 1, 2147483647L, -2147483648L, 2147483648L, 4294967296L, 4294967296L + 5, 4294967296L - 7, 3221225472L, -3221225472L,
+                                     (1L << 33) + 1000, -(1L << 33) - 1000, (1L << 40) + 3, LONG_MAX, LONG_MIN, LONG_MAX / 2, (1L << 62) + 12345};
+            for (int i = 0; i < 40; i++) { long hi = long(r.below(1UL << 28)) + 1; long lo = long(r.below(uint64_t(IMAX - IMIN) + 1)) + IMIN; big.push_back((r.chance(1, 2) ? 1 : -1) * (hi << 32) + lo); }
+            for (long v : big) {
+                if (v >= IMIN && v <= IMAX) continue;
+                for (int route = 0; route < 3; route++) {
+                    bool ok = false; dd_edge e(FI);
+                    try {
+                        if (route == 0) FI->createConstant(rangeval(v), e);
+                        else { minterm m(FI); if (relf) setMintermRel(FI, sh, m, 0, 0); else setMintermSet(FI, sh, m, 0);
+                               if (route == 1) { m.setValue(rangeval(v)); m.buildFunction(rangeval(0L), e); } else { m.setValue(rangeval(1L)); m.buildFunction(rangeval(v), e); } }
+                    } catch (MEDDLY::error& er) { ok = er.getCode() == error::VALUE_OVERFLOW; if (!ok) throw Violation("C19:forest-int:wrong-error", "value " + tos(v) + " raised " + er.getName() + " in " + fi.kindStr()); }
+                    if (!ok) { Table t = evalAll(w, e); throw Violation("C19:forest-int:overflow-accepted", std::string(route == 0 ? "createConstant" : route == 1 ? "minterm value" : "default value") + " " + tos(v) + " is outside the terminal range but was accepted in " + fi.kindStr() + " (evaluates to " + t[0].str() + ")"); }
+                    c.count("forest_int_overflow_rejections");
+                }
+            }
+        }
         for (float x : fvals) {
             node_handle h = FR->handleForValue(x);
             float back; FR->getValueFromHandle(h, back);
